@@ -49,6 +49,7 @@ class Registry:
         self.functions = {}      # spec function name -> (arg sorts, result sort)
         self.axioms = []         # (name, vars {name: sort}, expr)
         self.link_axioms = set()
+        self.lib_values = {}         # dotted library name -> python constant
         self.type_aliases = {}       # annotation name -> shape (used for `xs: List["Name"] = []`)
         self.axiom_patterns = {}
         self.inline_closure_args = set()   # targets executed inline (contract not used) when a local closure is passed to them
